@@ -30,5 +30,6 @@ Definition dispatch (f : Z) (x : sx) : sx :=
   | 1105 => x_perm_util x | 1106 => x_update_adjacent x | 1107 => x_close x
   | 1200 => x_close_to x | 1201 => x_diag_equiv x | 1202 => x_decomp x
   | 1000 => ConnectorX.x_conn_run x | 1001 => ConnectorX.x_ps_eval_all x | 1002 => ConnectorX.x_gen_perm x
+  | 1003 => ConnectorX.x_conn_run_old x
   | _ => L []
   end%Z.
